@@ -280,16 +280,30 @@ EXTRA_SLOTS = {
 }
 
 
+# GraphQL description slots that reach a docstring site (type / field / scalar / enum / enum value); the always-run sample
+# and the failing-input search of vlib/props/c10_doc.py plant texts there
+GQL_DOC_SLOTS = {
+    "gql_type_description": "neutral text",
+    "gql_field_description": "neutral text",
+    "gql_scalar_description": "neutral text",
+    "gql_enum_description": "neutral text",
+    "gql_enum_value_description": "neutral text",
+}
+DESCRIPTION_SLOTS = ("field_description", "class_description", *GQL_DOC_SLOTS)
+
+
 def neutral_for(slot: str, s: str = "") -> str:
     """the neutral text a planted text is compared with; for names and keys it is an identifier exactly when the
     planted text is one (an identifier needs no alias, so the two documents would legitimately differ in shape)"""
     if slot in ("discriminator_name", "discriminator_key") and gens.is_plain_identifier(s):
         return "neutralname"
+    if slot in GQL_DOC_SLOTS:
+        return GQL_DOC_SLOTS[slot]
     return EXTRA_SLOTS[slot] if slot in EXTRA_SLOTS else gens.neutral(SLOTS.index(slot))
 
 
 def input_type_of(slot: str) -> str:
-    return "graphql" if slot == "union_description" else "jsonschema"
+    return "graphql" if slot == "union_description" or slot in GQL_DOC_SLOTS else "jsonschema"
 
 
 def build_extra_doc(slot: str, s: str):
@@ -310,11 +324,19 @@ def build_extra_doc(slot: str, s: str):
 
         lit = graphql.print_ast(graphql.StringValueNode(value=s, block=False))
         return f"{lit}\nunion U = A | B\ntype A {{ f_x: Int }}\ntype B {{ f_y: Int }}\n"
+    if slot in GQL_DOC_SLOTS:
+        import graphql
+
+        lit = graphql.print_ast(graphql.StringValueNode(value=s, block=False))
+        d = {k: (lit + "\n" if k == slot else "") for k in GQL_DOC_SLOTS}
+        return (f"{d['gql_type_description']}type A {{\n  {d['gql_field_description']}f_x: Int\n  f_e: En\n  f_s: S\n}}\n"
+                f"{d['gql_scalar_description']}scalar S\n"
+                f"{d['gql_enum_description']}enum En {{\n  {d['gql_enum_value_description']}P\n  Q\n}}\n")
     raise KeyError(slot)
 
 
 def build_doc(slot: str, s: str) -> dict:
-    if slot in EXTRA_SLOTS:
+    if slot in EXTRA_SLOTS or slot in GQL_DOC_SLOTS:
         return build_extra_doc(slot, s)
     n = {k: gens.neutral(i) for i, k in enumerate(SLOTS)}
     v = dict(n)
@@ -345,7 +367,7 @@ def trigger_of(slot: str, s: str) -> str:
         if any(c in s for c in "\b\f\n\r\t"):
             return "control_in_table"
         return "other"
-    if slot in ("field_description", "class_description"):
+    if slot in DESCRIPTION_SLOTS:
         if "nul" in cls:
             return "nul"
         if "triple_quote" in cls or s.endswith('"') or "double_quote" in cls:
@@ -371,7 +393,7 @@ def rendering_of(slot: str, s: str, code: str) -> str:
             return "raw_literal_with_cooked_table" if body in e2e.string_constants(code) else "other"
         except SyntaxError:
             return "other"
-    if slot in ("field_description", "class_description"):
+    if slot in DESCRIPTION_SLOTS:
         from jinja2.filters import do_indent
 
         return "verbatim_unescaped" if (do_indent(s, 4) in code or s in code) else "other"
@@ -654,6 +676,12 @@ def run(ck: Check) -> None:
     ck.search_hooks.insert(0, c10_keys.search)
     guard.campaign(ck, c10_keys.campaign_keys, quick)
     guard.campaign(ck, c10_keys.campaign_sanitiser, 400 if quick else 6000)
+    # the docstring property on the real escape filter, without the model (quote runs of every length 1..9, …) and the
+    # search that embeds its refuters into complete documents — first of the hooks
+    from . import c10_doc
+
+    guard.campaign(ck, c10_doc.campaign_property, 400 if quick else 8000)
+    ck.search_hooks.insert(0, c10_doc.search)
     guard.campaign(ck, known_findings)
 
 
@@ -675,6 +703,10 @@ def replay(ck: Check, path: str) -> int:
             ok = False
         if not ok:
             ck.fail(data.get("classification") or {"oracle": "typed_dict_key_roundtrip"}, inp, f"TypedDict key literal {lit!r} does not evaluate to the member name {inp['key']!r}")
+    elif "text" in inp:
+        from . import c10_doc
+
+        c10_doc.replay_text(ck, inp, data.get("classification"))
     elif "pattern" in inp:
         from datamodel_code_generator.model.pydantic.types import pattern_literal
 
